@@ -183,7 +183,8 @@ class Weaver:
             line = L[i]
             s = line.strip()
             if not s.startswith("//@"):
-                self.emit_spec(line, i + 1)
+                lab, ltags = _parse_label(line)
+                self.emit_spec(line, i + 1, "", lab, ltags)
                 i += 1
                 continue
             d = s[3:].strip()
